@@ -370,6 +370,8 @@ def part_valid(ctx, tmp):
             items.append({"id": f"abi{i}", "files": {"gen.vy": K["src"], "lib0.vy": K["lib"]}, "target": "gen.vy", "how": "c19_gen", "base": f"abi{i}"})
         else:
             items.append({"id": f"abi{i}", "src": K["src"], "how": "c19_gen", "base": f"abi{i}"})
+    for i, (nm, src) in enumerate(nested_programs()):
+        items.append({"id": f"nested{i}", "src": src, "how": "nested-containers", "base": nm})
     for i in range(18 if ctx.tier == "quick" else 600):
         items.append({"id": f"valid{i}", "src": c20_valid_gen.gen_program(rnd), "how": "c20_valid_gen", "base": f"valid{i}"})
     nsh = 3
@@ -391,6 +393,20 @@ ENV_EXPRS = [
 ENV_TYPES = ["Bytes[INF]", "String[INF]", "DynArray[uint256, INF]", "Bytes[2**256]", "String[2**64]", "DynArray[uint256, 2**200]"]
 
 
+def nested_programs():
+    """deeply nested dynamic containers passed through an internal call and returned in a tuple: the legacy back end runs out
+    of DUP-reachable stack (`with` nesting) depending on level / EVM target (no mcopy before cancun)"""
+    out = []
+    for depth in (3, 4):
+        for elem in ("uint256", "Bytes[1]", "String[2]"):
+            T = elem
+            for _ in range(depth):
+                T = f"DynArray[{T}, 1]"
+            out.append((f"nested{depth}:{elem}", f"@internal\ndef _p(x: {T}) -> ({T}, uint256):\n    return x, 1\n\n"
+                                                  f"@external\ndef f(x: {T}) -> ({T}, uint256):\n    return self._p(x)\n"))
+    return out
+
+
 def part_env_matrix(ctx, tmp):
     """environment variables / builtins / unbounded types x every EVM target x both pipelines (systematic, fixed list)"""
     items = []
@@ -402,6 +418,8 @@ def part_env_matrix(ctx, tmp):
     for i, t in enumerate(ENV_TYPES):
         items.append({"id": f"envt{i}", "how": "env-matrix", "base": t, "src": f"@external\ndef f_(x: {t}) -> uint256:\n    return 1\n"})
         items.append({"id": f"envs{i}", "how": "env-matrix", "base": "storage " + t, "src": f"x_: {t}\n\n@external\ndef f_() -> uint256:\n    return 1\n"})
+    for i, (nm, src) in enumerate(nested_programs()):
+        items.append({"id": f"envn{i}", "how": "env-matrix", "base": nm, "src": src})
     configs = [[v, "gas", e] for v in (False, True) for e in (("london", "shanghai", "cancun", "prague") if ctx.tier == "quick" else ("london", "paris", "shanghai", "cancun", "prague"))]
     nsh = 3
     shards = [items[k::nsh] for k in range(nsh)]
